@@ -398,3 +398,78 @@ Fixpoint one_claim_per_cycle (open : bool) (tr : list revent) : bool :=
   end.
 
 Definition rpc_start (p : rpc) : bool := match p with LStart | CStart => true | _ => false end.
+
+(* ------------------------------------------------------------------ refresh life cycle with replacement entries *)
+(* The flag lives on the ENTRY.  A thread is a client lookup followed, when it is told to refresh, by the
+   background refresh it starts (the `go backgroundRefresh` after the claim):
+     P0  dnsCache.Load(key) in LookupDnsRespCache_            -> the entry e it will work on (a fresh entry is served, done)
+     P1  e.refreshing.CompareAndSwap(false,true)              -> claimed: the refresh is in flight (P2) / not claimed: done
+     P2  the upstream work ends: no answer (OFail), or dnsCache.Store(key, new entry) by the insert path, the
+         new entry being already stale (OStale: TTL 0 / fixed_domain_ttl 0) or fresh (OFresh)
+     P3  deferred block of backgroundRefresh: dnsCache.Load(key) -> the entry that is in the map NOW   (VCurrent, the code)
+                                              only if the map still holds the claimed entry           (VClaimedIfCurrent, a repair)
+     P4  IsRefreshing() = Load of that entry's flag
+     P5  MarkRefreshed() = Store(false) on that entry's flag
+   Entries are numbered in creation order; staleness does not change during a schedule. *)
+Inductive outcome := OFail | OStale | OFresh.
+Inductive cvariant := VCurrent | VClaimedIfCurrent.
+Inductive tpc := P0 | P1 (e : nat) | P2 (c : nat) | P3 (c : nat) | P4 (c e : nat) | P5 (c e : nat) | PDone (refresh : bool).
+
+Record tstate := { t_cur : nat; t_next : nat; t_flag : nat -> bool; t_stale : nat -> bool; t_pcs : list (tpc * outcome) }.
+
+Definition upd (f : nat -> bool) (x : nat) (b : bool) : nat -> bool := fun y => if Nat.eqb y x then b else f y.
+
+Fixpoint set_tpc (l : list (tpc * outcome)) (i : nat) (p : tpc) : list (tpc * outcome) :=
+  match l, i with
+  | [], _ => []
+  | (_, o) :: t, O => (p, o) :: t
+  | h :: t, S i' => h :: set_tpc t i' p
+  end.
+
+Definition with_pcs (s : tstate) (l : list (tpc * outcome)) : tstate :=
+  {| t_cur := t_cur s; t_next := t_next s; t_flag := t_flag s; t_stale := t_stale s; t_pcs := l |}.
+
+(* the effect of one atomic operation on the shared state, and the thread's next position *)
+Definition tstep (v : cvariant) (s : tstate) (p : tpc) (o : outcome) : tstate * tpc :=
+  match p with
+  | P0 => if t_stale s (t_cur s) then (s, P1 (t_cur s)) else (s, PDone false)
+  | P1 e => if t_flag s e then (s, PDone false)
+            else ({| t_cur := t_cur s; t_next := t_next s; t_flag := upd (t_flag s) e true; t_stale := t_stale s; t_pcs := t_pcs s |}, P2 e)
+  | P2 c =>
+      match o with
+      | OFail => (s, P3 c)
+      | OStale | OFresh =>
+          let n := t_next s in
+          ({| t_cur := n; t_next := S n; t_flag := upd (t_flag s) n false;
+              t_stale := upd (t_stale s) n (match o with OStale => true | _ => false end); t_pcs := t_pcs s |}, P3 c)
+      end
+  | P3 c =>
+      match v with
+      | VCurrent => (s, P4 c (t_cur s))
+      | VClaimedIfCurrent => if Nat.eqb (t_cur s) c then (s, P4 c c) else (s, PDone true)
+      end
+  | P4 c e => if t_flag s e then (s, P5 c e) else (s, PDone true)
+  | P5 c e => ({| t_cur := t_cur s; t_next := t_next s; t_flag := upd (t_flag s) e false; t_stale := t_stale s; t_pcs := t_pcs s |}, PDone true)
+  | PDone _ => (s, p)
+  end.
+
+Definition tsched_step (v : cvariant) (s : tstate) (i : nat) : tstate :=
+  match nth_error (t_pcs s) i with
+  | None => s
+  | Some (p, o) => let '(s', p') := tstep v s p o in with_pcs s' (set_tpc (t_pcs s') i p')
+  end.
+
+(* refreshes in flight: claimed, upstream work not ended *)
+Definition in_p2 (x : tpc * outcome) : bool := match fst x with P2 _ => true | _ => false end.
+Definition in_flight (s : tstate) : nat := length (filter in_p2 (t_pcs s)).
+
+(* the clause: at every moment of the schedule at most one refresh of the key is in flight *)
+Fixpoint trun_ok (v : cvariant) (s : tstate) (sched : list nat) : bool :=
+  match sched with
+  | [] => true
+  | i :: rest => let s' := tsched_step v s i in Nat.leb (in_flight s') 1 && trun_ok v s' rest
+  end.
+
+(* one stale entry in the map, no refresh claimed, every thread about to look the key up *)
+Definition tinit (outcomes : list outcome) : tstate :=
+  {| t_cur := 0; t_next := 1; t_flag := fun _ => false; t_stale := fun x => Nat.eqb x 0; t_pcs := map (fun o => (P0, o)) outcomes |}.
